@@ -52,8 +52,10 @@ var c15RunSingles = map[string][]string{
 	"proxy.shutdownwait":              {"0s", "-1s"},
 	"proxy.flushinterval":             {"0s", "-1s"},
 	"registry.consul.service.status":  {"", ","},
-	"proxy.strategy":                  {"foo", ""},
-	"proxy.matcher":                   {"foo", ""},
+	// enumerated options: every value in odd letter case - refused, or understood by what runs
+	"proxy.strategy": {"foo", "", "RR", "Rr", "rR", "RND", "Rnd", "rnD"},
+	"proxy.matcher":  {"foo", "", "PREFIX", "Prefix", "GLOB", "Glob", "gLOB", "IPREFIX", "iPrefix", "IPrefix"},
+	"ui.access":      {"RO", "Ro", "RW", "rW"},
 }
 
 func c15RunLoad(c *c15RunCase, path string) (cfg *config.Config, err error, p any, stack string) {
